@@ -290,3 +290,70 @@ def hash_order_isolation(ctx, R, rule, roots):
         ctx.ob(rule, "no function result reachable from the roots depends on hash iteration order (%d functions, %d hash-iteration sites, "
                      "killed only by verified reducers %s)" % (len(seen), n_src, sorted(norm_path(k) for k in reducers)), True, "*", "hash-order-leak")
     return n_src
+
+
+# ---- comparisons (trait calls on T and builtin binops on f64/ints, uniformly) ---------------------
+CMP_BINOPS = {"Lt": "lt", "Le": "le", "Gt": "gt", "Ge": "ge", "Eq": "eq", "Ne": "ne"}
+
+
+def cmp_of(v, cond):
+    """For a classified bool (Vals.classify_bool) return (op, left operand, right operand, where) with op in lt/le/gt/ge/eq/ne,
+    for PartialOrd/PartialEq calls as well as builtin comparisons; None otherwise."""
+    if not cond:
+        return None
+    if cond[0] == "call":
+        t = cond[1]
+        if callee_is(t, trait=("PartialOrd", "PartialEq"), name=("lt", "le", "gt", "ge", "eq", "ne")) and len(t["args"]) == 2:
+            return t["callee"]["name"], t["args"][0], t["args"][1], pat.where(t)
+        return None
+    if cond[0] == "binop" and cond[1]["op"] in CMP_BINOPS:
+        return CMP_BINOPS[cond[1]["op"]], cond[1]["a"], cond[1]["b"], None
+    return None
+
+
+def const_value_of(v, operand):
+    """Numeric value of an operand that is a literal, MomTropFloat::zero()/one(), or from_f64/from_isize(literal); else None."""
+    import struct
+    if operand["k"] == "const":
+        if operand.get("ty") == "f64" and "bits" in operand:
+            return struct.unpack("<d", struct.pack("<Q", int(operand["bits"])))[0]
+        if "int" in operand:
+            return float(operand["int"])
+        return None
+    r = v.root(operand)
+    if r.kind == "const" and r.base[2] == "f64" and r.base[1] is not None:
+        try:
+            return struct.unpack("<d", struct.pack("<Q", int(r.base[1])))[0]
+        except (ValueError, struct.error):
+            return None
+    t = v.call_term(r)
+    if t is None:
+        return None
+    if callee_is(t, trait="MomTropFloat", name="zero"):
+        return 0.0
+    if callee_is(t, trait="MomTropFloat", name="one"):
+        return 1.0
+    if callee_is(t, trait="MomTropFloat", name=("from_f64", "from_isize")) and len(t["args"]) > 1:
+        return const_value_of(v, t["args"][1])
+    return None
+
+
+def strip_abs(v, root):
+    """Root of x for a root that is abs(x) (MomTropFloat::abs or f64::abs); (root, False) otherwise."""
+    t = v.call_term(root)
+    if t is not None and t.get("callee", {}).get("name") == "abs" and t["args"]:
+        return v.root(t["args"][0]), True
+    return root, False
+
+
+def eval_cmp(op, a, b):
+    return {"lt": a < b, "le": a <= b, "gt": a > b, "ge": a >= b, "eq": a == b, "ne": a != b}[op]
+
+
+def scalar_value_root(v, operand):
+    """Root of a scalar operand, looking through to_f64 narrowing (the same value in another representation)."""
+    r = v.root(operand)
+    t = v.call_term(r)
+    if t is not None and callee_is(t, trait="MomTropFloat", name="to_f64"):
+        return v.root(t["args"][0])
+    return r
